@@ -220,6 +220,12 @@ m("c05-no-dollar-check", "src/issuer.rs",
                     }""", "                    }", {"C05": "dollar-prefix"})
 m("c05-toplevel-stays", "src/issuer.rs", "            Self::TopLevel => Self::NoSDClaims,", "            Self::TopLevel => Self::TopLevel,", {"C05": "next_level:TopLevel"})
 m("c05-nosd-hides", "src/issuer.rs", "            Self::NoSDClaims => false,", "            Self::NoSDClaims => true,", {"C05": "sd_for_key:NoSDClaims"})
+m("c05-sep-slash", "src/issuer.rs", "                                Some('.') => Some(&str[1..]), // next token",
+  "                                Some('.') | Some('/') => Some(&str[1..]), // next token", {"C05": "custom-separators"})
+m("c05-sep-dot-kept", "src/issuer.rs", "                                Some('.') => Some(&str[1..]), // next token",
+  "                                Some('.') => Some(str), // next token", {"C05": "custom-separators"})
+m("c05-sep-empty-matches", "src/issuer.rs", "                                _ => None,\n                            }\n                        )",
+  "                                None => Some(str),\n                                _ => None,\n                            }\n                        )", {"C05": "custom-separators"})
 # ---------------------------------------------------------------- C06
 m("c06-false-not-skipped", "src/holder.rs",
   """                Value::Bool(false) | Value::Null => {
